@@ -274,14 +274,34 @@ def _choice_rule(chk, prog, S, LA):
                           "over all argc clauses (bounds ok=%s, one release per path=%s)" % (bound_ok, per_iter))
     base_transfer = transfer
 
+    def rest_form(n):
+        """chan_unlock_args(argv + i + 1, argc - i - 1): releases every clause after the current one"""
+        from jv.linear import linear
+        if len(n.args) != 2:
+            return False
+        a, b = linear(n.args[0]), linear(n.args[1])
+        if a is None or b is None:
+            return False
+        ivars = [k for k, v in a[0].items() if k != "argv" and v == 1]
+        return (a[0].get("argv") == 1 and a[1] == 1 and len(ivars) == 1 and
+                b[0].get("argc") == 1 and b[0].get(ivars[0]) == -1 and b[1] == -1)
+
     def transfer(st, n):   # noqa
-        if n.id in drain_nodes:
+        if n.id in drain_nodes and n.k == "call" and n.callee == "chan_unlock_args":
+            # inside the registration loop only the "release the rest" form lets go of the clauses still locked
+            if rest_form(n):
+                return frozenset((cur, False, taken) for (cur, prevheld, taken) in st)
             return st
         return base_transfer(st, n)
 
     def edge(st, blk, succ, cond, truth):
-        if blk.term is not None and blk.term in drain and truth is False:
-            return frozenset((0, False, t) for (c, p, t) in st)
+        if blk.term is not None and blk.term in drain:
+            if truth is False:
+                # every clause has been released by its own iteration
+                return frozenset((0, False, t) for (c, p, t) in st)
+            if truth is True:
+                # iteration i starts with clause i (and all later ones) still locked from the first pass
+                return frozenset((1, True, t) for (c, p, t) in st)
         return st
 
     IN, OUT = flow.forward(fn, frozenset([(0, False, False)]), transfer, lambda a, b: a | b, edge=edge)
@@ -289,14 +309,6 @@ def _choice_rule(chk, prog, S, LA):
     for b, st in IN.items():
         blk = fn.blocks[b]
         for n in blk.elems:
-            if n.id in drain_nodes:
-                # inside the registration loop every clause mutex is still held until its helper releases it
-                if n.k == "call" and not (n.callee or "").endswith("_with_lock") and not prog.is_noreturn(n.callee or "") \
-                        and S.call_in(fn, n, S.may_panic):
-                    chk.instance(rule2)
-                    chk.violation(rule2, "ev.c", fn.name, n.callee or "pointer", n.loc,
-                                  "%s may raise while the mutexes of the select clauses are held" % n.text()[:50])
-                continue
             if n.k == "call" and n.callee not in (LOCK, UNLOCK, "chan_unlock_args"):
                 held = [s for s in st if s[0] > 0 or s[1]]
                 if prog.is_noreturn(n.callee or "") and n.callee != "janet_await":
